@@ -15,7 +15,7 @@ from __future__ import annotations
 
 import ast
 
-from ..core import norm, parent, walk_no_nested
+from ..core import norm, parent, walk_no_nested, calls_in
 from . import consistency
 from .consistency import _selfcheck, _POSITIVE, GENERIC
 
@@ -1179,3 +1179,117 @@ def opt_unused(ctx, repo, scope=("",), rule="OPT-UNUSED", _self=False):
 
 NEW6 = [opt_unused]
 GENERIC.extend(NEW6)
+
+
+# ---------------------------------------------------------------------------
+# KW-FWD: an option the caller itself received is not handed on to a callee that takes the same option
+# ---------------------------------------------------------------------------
+_POSITIVE["KW-FWD"] = '''
+class GLIFPointPen:
+    def __init__(self, element, formatVersion=None, identifiers=None, validate=True):
+        self.formatVersion = formatVersion
+
+def _writeGlyphToBytes(glyphName, glyphObject=None, drawPointsFunc=None, formatVersion=None, validate=True):
+    outline = make(formatVersion)
+    pen = GLIFPointPen(outline, identifiers=set(), validate=validate)
+    drawPointsFunc(pen)
+'''
+# (module, caller, callee, option) -> why the option is deliberately not handed on (each read)
+KW_FWD_AUDIT = {
+    ("cffLib/__init__.py", "CFFFontSet.compile", "Index", "isCFF2"): "the font-name INDEX exists only in CFF 1 (the call sits under `if not isCFF2`), where the default layout is right",
+    ("misc/psLib.py", "PSTokenizer.__init__", "tobytes", "encoding"): "the buffer is forced to bytes with the default ascii; `encoding` is the tokenizer's decoding of tokens, stored on self",
+    ("ttLib/tables/TupleVariation.py", "TupleVariation.compileDeltaValues_", "TupleVariation.encodeDeltaRunAsBytes_", "optimizeSize"): "called only in the optimizeSize arm, where the callee's default True is the value",
+    ("ttLib/tables/TupleVariation.py", "TupleVariation.compileDeltaValues_", "TupleVariation.encodeDeltaRunAsWords_", "optimizeSize"): "as encodeDeltaRunAsBytes_",
+    ("ttLib/tables/TupleVariation.py", "TupleVariation.compileDeltaValues_", "TupleVariation.encodeDeltaRunAsLongs_", "optimizeSize"): "as encodeDeltaRunAsBytes_",
+    ("ttLib/tables/_n_a_m_e.py", "table__n_a_m_e.addMultilingualName", "self._findUnusedNameID", "minNameID"): "latent: the documented lower bound is not honoured for minNameID > 256 (the callee's default); every in-tree caller passes 0 or 256 (cross-reference in DESIGN §5, not in a claimed property's anchors)",
+    ("ttLib/tables/otConverters.py", "AATLookup.__init__", "Table", "description"): "the inner Value converter is synthetic and has no description of its own",
+    ("ttLib/tables/otConverters.py", "STXHeader.__init__", "AATLookup", "description"): "synthetic inner lookups, no description of their own",
+    ("ttLib/ttFont.py", "TTFont._saveXML", "self._tableToXML", "quiet"): "`quiet` is deprecated and only triggers a deprecation warning at the outermost call",
+    ("ttLib/ttFont.py", "TTFont.importXML", "xmlReader.XMLReader", "quiet"): "as _saveXML: deprecated no-op, warned about once",
+    ("ufoLib/glifLib.py", "GlyphSet.__init__", "self.rebuildContents", "validateRead"): "latent: rebuildContents defaults to False instead of None, so the constructor never validates contents.plist even with validateRead=True (upstream behaviour; validation is not a claimed clause; cross-reference in DESIGN §5)",
+    ("varLib/interpolatablePlot.py", "InterpolatablePlot.draw_glyph", "self.draw_dot", "x"): "x / y of draw_glyph are the page origin, applied by a cairo translate; the helpers draw in glyph space",
+    ("varLib/interpolatablePlot.py", "InterpolatablePlot.draw_glyph", "self.draw_dot", "y"): "as x",
+    ("varLib/interpolatablePlot.py", "InterpolatablePlot.draw_glyph", "self.draw_arrow", "x"): "as draw_dot",
+    ("varLib/interpolatablePlot.py", "InterpolatablePlot.draw_glyph", "self.draw_arrow", "y"): "as draw_dot",
+    ("varLib/interpolatablePlot.py", "InterpolatablePlot.draw_glyph", "self.draw_circle", "x"): "as draw_dot",
+    ("varLib/interpolatablePlot.py", "InterpolatablePlot.draw_glyph", "self.draw_circle", "y"): "as draw_dot",
+}
+
+
+def _optional_params(a):
+    allp = [x.arg for x in a.posonlyargs + a.args]
+    nd = len(a.defaults)
+    return set(allp[len(allp) - nd:] if nd else []) | {x.arg for x, d in zip(a.kwonlyargs, a.kw_defaults) if d is not None}
+
+
+def kw_forward(ctx, repo, scope=("",), rule="KW-FWD", _self=False):
+    ctx.rule(rule, "when a function takes an option (a parameter with a default) and calls a function or constructor of this code base that takes an option of the same name, it hands its own value on (positionally or by keyword); otherwise the callee silently runs with its default whatever the caller asked for -- the dropped-keyword slip", floor=1)
+    if not _self:
+        _selfcheck(ctx, rule, kw_forward)
+
+    def callee_sig(mod, call, f):
+        fn = call.func
+        if isinstance(fn, ast.Attribute) and isinstance(fn.value, ast.Name) and fn.value.id in ("self", "cls") and f.cls is not None:
+            m_ = repo.lookup_method(f.cls, fn.attr) if hasattr(repo, "lookup_method") else f.cls.methods.get(fn.attr)
+            return m_.node if m_ else None
+        if isinstance(fn, ast.Name) and not hasattr(repo, "resolve_expr"):
+            c_ = mod.classes.get(fn.id)
+            if c_ is not None:
+                i_ = c_.methods.get("__init__")
+                return i_.node if i_ else None
+            f_ = mod.funcs.get(fn.id)
+            return f_.node if f_ else None
+        if not hasattr(repo, "resolve_expr"):
+            return None
+        r = repo.resolve_expr(mod, fn)
+        if r is None:
+            return None
+        kind, obj = r
+        if kind == "func":
+            return obj.node
+        if kind == "class":
+            i_ = repo.lookup_method(obj, "__init__")
+            return i_.node if i_ else None
+        return None
+
+    for rel in sorted(repo.rels()):
+        if not _in_scope(rel, scope):
+            continue
+        m = repo.mod(rel)
+        total = 0
+        bad = []
+        for q, f in sorted(m.funcs.items()):
+            fn = f.node
+            if not isinstance(fn, ast.FunctionDef):
+                continue
+            params = {p for p in _optional_params(fn.args) if not p.startswith("_")}
+            if not params:
+                continue
+            for c in calls_in(fn, nested=False):
+                if any(isinstance(x, ast.Starred) for x in c.args) or any(k.arg is None for k in c.keywords):
+                    continue
+                sig = callee_sig(m, c, f)
+                if sig is None or sig is fn or not isinstance(sig, ast.FunctionDef):
+                    continue
+                allp = [x.arg for x in sig.args.posonlyargs + sig.args.args]
+                if allp and allp[0] in ("self", "cls"):
+                    allp = allp[1:]
+                shared = _optional_params(sig.args) & params
+                if not shared:
+                    continue
+                passed = set(allp[: len(c.args)]) | {k.arg for k in c.keywords}
+                for o in sorted(shared):
+                    total += 1
+                    if o in passed:
+                        continue
+                    key = (rel, q.split("#")[0], norm(c.func), o)
+                    if key in KW_FWD_AUDIT:
+                        ctx.ob(rule, f"{rel}:{q}", f"{norm(c.func)}(... {o} not forwarded; audited: {KW_FWD_AUDIT[key]})", True)
+                    else:
+                        bad.append(f"{q}: {norm(c.func)}(...) at line {c.lineno} does not receive the caller's `{o}`")
+        if total:
+            ctx.ob(rule, f"{rel}:<module>", f"{total} same-named options are handed on to the callee", not bad, "; ".join(bad[:3]))
+
+
+NEW7 = [kw_forward]
+GENERIC.extend(NEW7)
